@@ -189,7 +189,7 @@ func (cm *connManager) handleNewTCPConn(regManager *cj.RegistrationManager, clie
 	deadline := time.Now().Add(timeout)
 	err = clientConn.SetDeadline(deadline)
 	if err != nil {
-		logger.Errorln("error occurred while setting deadline:", err)
+		logger.Errorln("error occurred while setting deadline:", generalizeErr(err))
 	}
 
 	if count < 1 {
@@ -349,7 +349,7 @@ readLoop:
 			// We found our transport! First order of business: disable deadline
 			err = wrapped.SetDeadline(time.Time{})
 			if err != nil {
-				logger.Errorln("error occurred while setting deadline:", err)
+				logger.Errorln("error occurred while setting deadline:", generalizeErr(err))
 			}
 
 			logger.SetPrefix(fmt.Sprintf("[%s] %s ", t.LogPrefix(), reg.IDString()))
